@@ -15,20 +15,21 @@ structure Inv (s : State) : Prop where
   init_iff   : s.pc = .init ↔ s.st = .initial
   ready_pc   : s.st = .ready → s.pc = .waiting
   waiting    : s.pc = .waiting → (s.st = .ready ∨ s.st = .running ∨ s.st = .stopped)
-  inside     : (s.pc = .goRun ∨ s.pc = .inRun ∨ s.pc = .inUpd ∨ s.pc.ranOut? = true) → s.st = .running
+  inside     : (s.pc = .goRun ∨ s.pc = .inRun ∨ s.pc = .inUpd ∨ s.pc = .inPub ∨ s.pc.ranOut? = true) → s.st = .running
   after      : (s.pc = .exiting ∨ s.pc = .ended) →
                  (s.st = .excInit ∨ s.st = .stopped ∨ s.st = .completed ∨ s.st = .excRun)
   up_st      : s.phase = .up → (s.st ≠ .initial ∧ s.st ≠ .excInit)
   ctor1_st   : s.phase = .ctor1 → s.st ≠ .initial
   rpc_up     : s.rpc ≠ .idle → s.phase = .up
   startMid   : s.rpc = .startMid → s.st = .ready
-  runs_def   : s.runs = if (s.pc = .inRun ∨ s.pc = .inUpd ∨ s.pc.ranOut? = true ∨ s.st = .completed ∨ s.st = .excRun)
+  runs_def   : s.runs = if (s.pc = .inRun ∨ s.pc = .inUpd ∨ s.pc = .inPub ∨ s.pc.ranOut? = true ∨
+                             s.st = .completed ∨ s.st = .excRun)
                         then 1 else 0
   started_iff   : s.started = true ↔ (s.st = .running ∨ s.st = .completed ∨ s.st = .excRun)
   stopFirst_iff : s.stopFirst = true ↔ s.st = .stopped
   exc_iff    : s.exc = true ↔ (s.st = .excInit ∨ s.st = .excRun)
   out_pc     : ∀ o, s.pc = .ranOut o → s.runOutcome = some o
-  out_none   : (s.pc = .init ∨ s.pc = .waiting ∨ s.pc = .goRun ∨ s.pc = .inRun ∨ s.pc = .inUpd ∨
+  out_none   : (s.pc = .init ∨ s.pc = .waiting ∨ s.pc = .goRun ∨ s.pc = .inRun ∨ s.pc = .inUpd ∨ s.pc = .inPub ∨
                 s.st = .stopped ∨ s.st = .excInit) → s.runOutcome = none
   out_completed : s.st = .completed → ∃ o, s.runOutcome = some o ∧ o ≠ .otherExc
   out_excRun : s.st = .excRun → s.runOutcome = some .otherExc
@@ -36,6 +37,9 @@ structure Inv (s : State) : Prop where
   slot_last  : ∀ v, s.slot = some v → s.lastPosted = some v
   inUpd_slot : s.pc = .inUpd → s.slot.isSome = true
   joined_ended  : s.joined = true → s.pc = .ended
+  removed_joined : s.phase = .removed → s.joined = true
+  inPub_settings : s.pc = .inPub → s.settings.isSome = true
+  pub_def    : s.adopted = s.published ++ (if s.pc = .inPub then s.settings.toList else [])
   settings_runs : s.settings.isSome = true → s.runs = 1
 
 theorem inv_init : Inv init := by
@@ -45,12 +49,12 @@ theorem inv_init : Inv init := by
 syntax "inv_tac " ident : tactic
 macro_rules
   | `(tactic| inv_tac $hs) => `(tactic| (
-      simp only [step, State.free, Bool.and_eq_true, beq_iff_eq] at $hs:ident
+      simp only [step, State.free, State.stopCtx, State.joinCtx, Bool.and_eq_true, beq_iff_eq] at $hs:ident
       (repeat' split at $hs:ident) <;>
         first
         | contradiction
         | (simp only [Option.some.injEq] at $hs:ident; subst $hs:ident
-           constructor <;> simp_all [Pc.ranOut?])))
+           constructor <;> simp_all [Pc.ranOut?, Rpc.afterStop] <;> (try (split <;> simp_all)))))
 
 theorem inv_initOk {s s' : State} (h : Inv s) (hs : step s .initOk = some s') : Inv s' := by
   obtain ⟨⟩ := h; inv_tac hs
@@ -63,6 +67,16 @@ theorem inv_runEnter {s s' : State} (h : Inv s) (hs : step s .runEnter = some s'
 theorem inv_updCheck {s s' : State} (h : Inv s) (hs : step s .updCheck = some s') : Inv s' := by
   obtain ⟨⟩ := h; inv_tac hs
 theorem inv_updPop {s s' : State} (h : Inv s) (hs : step s .updPop = some s') : Inv s' := by
+  obtain ⟨⟩ := h; inv_tac hs
+theorem inv_updPub {s s' : State} (h : Inv s) (hs : step s .updPub = some s') : Inv s' := by
+  obtain ⟨⟩ := h; inv_tac hs
+theorem inv_setStatus {s s' : State} (v : Nat) (h : Inv s) (hs : step s (.setStatus v) = some s') : Inv s' := by
+  obtain ⟨⟩ := h; inv_tac hs
+theorem inv_getStatus {s s' : State} (h : Inv s) (hs : step s .getStatus = some s') : Inv s' := by
+  obtain ⟨⟩ := h; inv_tac hs
+theorem inv_exitBegin {s s' : State} (h : Inv s) (hs : step s .exitBegin = some s') : Inv s' := by
+  obtain ⟨⟩ := h; inv_tac hs
+theorem inv_releaseBegin {s s' : State} (h : Inv s) (hs : step s .releaseBegin = some s') : Inv s' := by
   obtain ⟨⟩ := h; inv_tac hs
 theorem inv_runEnd {s s' : State} (o : Outcome) (h : Inv s) (hs : step s (.runEnd o) = some s') : Inv s' := by
   obtain ⟨⟩ := h; inv_tac hs
@@ -78,12 +92,78 @@ theorem inv_startCheck {s s' : State} (h : Inv s) (hs : step s .startCheck = som
   obtain ⟨⟩ := h; inv_tac hs
 theorem inv_startKick {s s' : State} (h : Inv s) (hs : step s .startKick = some s') : Inv s' := by
   obtain ⟨⟩ := h; inv_tac hs
+
+theorem stopCtx_some {s : State} {c : Comp} (h : s.stopCtx = some c) :
+    s.phase = .up ∧ ((s.rpc = .idle ∧ c = .plain) ∨ s.rpc = .compStop c) := by
+  simp only [State.stopCtx] at h
+  split at h
+  · rename_i hup
+    refine ⟨hup, ?_⟩
+    split at h <;> simp_all
+  · contradiction
+
+theorem joinCtx_some {s : State} {c : Comp} (h : s.joinCtx = some c) :
+    s.phase = .up ∧ ((s.rpc = .idle ∧ c = .plain) ∨ s.rpc = .compJoin c) := by
+  simp only [State.joinCtx] at h
+  split at h
+  · rename_i hup
+    refine ⟨hup, ?_⟩
+    split at h <;> simp_all
+  · contradiction
+
+/-- the same as `inv_tac`, for an action whose composition context `c` is already fixed -/
+syntax "inv_ctx_tac " ident ident : tactic
+macro_rules
+  | `(tactic| inv_ctx_tac $hs $hc) => `(tactic| (
+      simp only [step, $hc:ident] at $hs:ident
+      (repeat' split at $hs:ident) <;>
+        first
+        | contradiction
+        | (simp only [Option.some.injEq] at $hs:ident; subst $hs:ident
+           constructor <;> simp_all [Pc.ranOut?, Rpc.afterStop])))
+
+theorem inv_stopRegion_plain {s s' : State} (h : Inv s) (hc : s.stopCtx = some .plain)
+    (hs : step s .stopRegion = some s') : Inv s' := by
+  obtain ⟨hup, hr⟩ := stopCtx_some hc
+  obtain ⟨⟩ := h; inv_ctx_tac hs hc
+theorem inv_stopRegion_exit {s s' : State} (h : Inv s) (hc : s.stopCtx = some .exit)
+    (hs : step s .stopRegion = some s') : Inv s' := by
+  obtain ⟨hup, hr⟩ := stopCtx_some hc
+  obtain ⟨⟩ := h; inv_ctx_tac hs hc
+theorem inv_stopRegion_release {s s' : State} (h : Inv s) (hc : s.stopCtx = some .release)
+    (hs : step s .stopRegion = some s') : Inv s' := by
+  obtain ⟨hup, hr⟩ := stopCtx_some hc
+  obtain ⟨⟩ := h; inv_ctx_tac hs hc
 theorem inv_stopRegion {s s' : State} (h : Inv s) (hs : step s .stopRegion = some s') : Inv s' := by
-  obtain ⟨⟩ := h; inv_tac hs
+  cases hc : s.stopCtx with
+  | none => simp [step, hc] at hs
+  | some c =>
+    cases c
+    · exact inv_stopRegion_plain h hc hs
+    · exact inv_stopRegion_exit h hc hs
+    · exact inv_stopRegion_release h hc hs
 theorem inv_stopSet {s s' : State} (h : Inv s) (hs : step s .stopSet = some s') : Inv s' := by
   obtain ⟨⟩ := h; inv_tac hs
+theorem inv_join_plain {s s' : State} (h : Inv s) (hc : s.joinCtx = some .plain)
+    (hs : step s .join = some s') : Inv s' := by
+  obtain ⟨hup, hr⟩ := joinCtx_some hc
+  obtain ⟨⟩ := h; inv_ctx_tac hs hc
+theorem inv_join_exit {s s' : State} (h : Inv s) (hc : s.joinCtx = some .exit)
+    (hs : step s .join = some s') : Inv s' := by
+  obtain ⟨hup, hr⟩ := joinCtx_some hc
+  obtain ⟨⟩ := h; inv_ctx_tac hs hc
+theorem inv_join_release {s s' : State} (h : Inv s) (hc : s.joinCtx = some .release)
+    (hs : step s .join = some s') : Inv s' := by
+  obtain ⟨hup, hr⟩ := joinCtx_some hc
+  obtain ⟨⟩ := h; inv_ctx_tac hs hc
 theorem inv_join {s s' : State} (h : Inv s) (hs : step s .join = some s') : Inv s' := by
-  obtain ⟨⟩ := h; inv_tac hs
+  cases hc : s.joinCtx with
+  | none => simp [step, hc] at hs
+  | some c =>
+    cases c
+    · exact inv_join_plain h hc hs
+    · exact inv_join_exit h hc hs
+    · exact inv_join_release h hc hs
 theorem inv_isRunning {s s' : State} (h : Inv s) (hs : step s .isRunning = some s') : Inv s' := by
   obtain ⟨⟩ := h; inv_tac hs
 theorem inv_setSettings {s s' : State} (v : Nat) (h : Inv s) (hs : step s (.setSettings v) = some s') : Inv s' := by
@@ -102,6 +182,11 @@ theorem inv_step {s s' : State} {a : Act} (h : Inv s) (hs : step s a = some s') 
   | runEnter => exact inv_runEnter h hs
   | updCheck => exact inv_updCheck h hs
   | updPop => exact inv_updPop h hs
+  | updPub => exact inv_updPub h hs
+  | setStatus v => exact inv_setStatus v h hs
+  | getStatus => exact inv_getStatus h hs
+  | exitBegin => exact inv_exitBegin h hs
+  | releaseBegin => exact inv_releaseBegin h hs
   | runEnd o => exact inv_runEnd o h hs
   | mark => exact inv_mark h hs
   | threadEnd => exact inv_threadEnd h hs
@@ -160,7 +245,7 @@ theorem reachable_exec {s s' : State} {tr : List Act} (h : Reachable s) (he : ex
 syntax "frame_tac " ident : tactic
 macro_rules
   | `(tactic| frame_tac $hs) => `(tactic| (
-      simp only [step, State.free, Bool.and_eq_true, beq_iff_eq] at $hs:ident
+      simp only [step, State.free, State.stopCtx, State.joinCtx, Bool.and_eq_true, beq_iff_eq] at $hs:ident
       (repeat' split at $hs:ident) <;>
         first
         | contradiction
